@@ -19,6 +19,6 @@ TNext ==
   \/ Step(Close,   E.op = "seek" /\ E.arg = saved)
 TSpec == TInit /\ [][TNext]_<<svars, r, l>>
 Accepted == l = Len(Rec.ops) + 1 /\ phase = "closed"
-Note == (TLCGet(r) < l => TLCSet(r, l)) /\ (Accepted => TLCSet(r, 0 - 1))
+Note == ((TLCGet(r) >= 0 /\ TLCGet(r) < l) => TLCSet(r, l)) /\ (Accepted => TLCSet(r, 0 - 1))
 Report == \A k \in 1..NR : PrintT("RUN " \o ToString(k) \o " " \o ToString(TLCGet(k)) \o " OF " \o ToString(Len(Obs.records[k].ops)))
 =============================================================================
